@@ -315,6 +315,10 @@ class GeckoAsyncSpaMan(ABC, AsyncTasks):
                 # A reset took this spa away while it was still connecting, so
                 # release whatever the attempt opened after that (endpoint, tasks)
                 await spa.disconnect()
+                # ... and whatever state the abandoned attempt reported since then
+                # (spa ready, retry count exceeded) is void, start over from idle
+                self._spa_descriptors = None
+                self._spa_state = GeckoSpaState.IDLE
             await self._handle_event(
                 GeckoSpaEvent.CONNECTION_FINISHED, facade=self._facade
             )
